@@ -469,6 +469,8 @@ impl<'a, W: 'static, R: 'static, T: 'static> RuntimeScope<'a, W, R, T> {
                                     return Err(RuntimeViolation::MaximumRecursion);
                                 }
                             }
+                            // a trampolined self-call begins the body again: the time limit applies to it too
+                            rt.check_timeout()?;
                             args = new_args;
                         }
                         v => break Ok(v),
